@@ -174,6 +174,8 @@ func (w *shardWriter) add(mk func(n int) (pre string, term string), in json.RawM
 		fmt.Fprintln(f, "From Coq Require Import List ZArith String.")
 		fmt.Fprintln(f, "From GoHls Require Import Model.ClientSel Tie.ClientSelTie.")
 		fmt.Fprintln(f, "Import ListNotations. Open Scope Z_scope.")
+		// one line, whatever its length: the driver's parser does not expect a break after "("
+		fmt.Fprintln(f, "Set Printing Width 1000000.")
 	}
 	pre, term := mk(w.defs)
 	w.defs++
